@@ -415,6 +415,8 @@ pub assume_specification<T> [core::mem::MaybeUninit::<T>::as_mut_ptr] (_0: &mut 
 pub assume_specification<T> [core::mem::MaybeUninit::<T>::assume_init_drop] (_0: &mut core::mem::MaybeUninit<T>)
     requires old(_0).mem_contents() is Init,
     ensures final(_0).mem_contents() is Uninit;
+pub assume_specification<T> [core::mem::MaybeUninit::<T>::write] (_0: &mut core::mem::MaybeUninit<T>, _1: T) -> (r: &mut T)
+    ensures *r == _1, final(_0).mem_contents() == MemContents::Init(*final(r));
 pub assume_specification<T, A: core::alloc::Allocator> [alloc::vec::Vec::<T, A>::capacity] (_0: &alloc::vec::Vec<T, A>) -> (c: usize)
     ensures c >= _0@.len();
 
